@@ -90,4 +90,10 @@ CLAIMS = {
         "note": TB + "The order in which survivors are re-yielded after a deletion is not compared.",
         "technique": "TLC model checking (safety + liveness) of a TLA+ walk machine + TLC trace validation of exhaustively enumerated walks on the real library",
     },
+    "C13": {
+        "text": "TLC checks that Synth!WireRR (structured record -> RFC 1035 bytes, TXT split at 255) decodes with Message!Decode back to the same record for all nine types over a universe of names and the TXT lengths around the chunk boundary. RR::from_string is run on ~1.2k grammar-derived valid texts (nine types x boundary values x four whitespace / keyword-case styles), ~230 systematically damaged texts (missing / surplus field, out-of-range number, malformed address, unbalanced / empty quotes, odd-length and non-hex digest, 64-byte label, empty interior label, other class, unknown type) and thousands of arbitrary byte strings and token soups; TLC validates: valid text => exactly WireRR(record); damaged => error; never a panic; anything returned is a well-formed record; inserting it into the answer, authority and additional section of a valid packet leaves a packet the policy accepts.",
+        "design_ref": "DESIGN.md section 5, C13",
+        "note": TB + "Texts are rendered from structured records by the scenario generator (lib/synthgen.py); the record travels with the text so TLC never parses text. Texts whose classification the statement leaves open are only in the arbitrary family.",
+        "technique": "TLC round-trip check of the TLA+ record encoder + TLC trace validation of synthesised records against the TLA+ wire form",
+    },
 }
